@@ -203,6 +203,14 @@ func dischargeBatch(vc *VC, dir string, tag string, workers int, quick, slow int
 		}
 		b.WriteString("(check-sat)\n(pop 1)\n")
 	}
+	if pat := os.Getenv("GOVC_DUMP"); pat != "" {
+		// debugging aid: write the stand-alone query of every obligation whose name contains pat
+		for _, o := range vc.obls {
+			if strings.Contains(o.Name, pat) {
+				os.WriteFile(filepath.Join(os.TempDir(), "govc_dump_"+sanitize(o.Name)+".smt2"), []byte(queryText(vc, o)), 0o644)
+			}
+		}
+	}
 	file := filepath.Join(dir, sanitize(tag)+"_batch.smt2")
 	os.WriteFile(file, []byte(b.String()), 0o644)
 	t0 := time.Now()
